@@ -228,6 +228,9 @@ func (fr *FuncRun) guardCheck(f *Frame, st *State, a Addr, write bool, v ssa.Val
 	}
 	mu, field, ok := fr.guardInfo(a)
 	if !ok {
+		if write {
+			fr.unguardedWrite(st, a, pos)
+		}
 		return
 	}
 	// map-typed (and slice-typed) fields: loading the header needs at least a read lock
@@ -248,14 +251,74 @@ func (fr *FuncRun) guardProv(f *Frame, st *State, a Addr) *Prov {
 	}
 	mu, field, ok := fr.guardInfo(a)
 	if !ok {
+		if tc, fname, shared := fr.sharedField(a); shared {
+			if _, conf := tc.Confined[fname]; !conf {
+				// an object reachable from a field of a shared structure that no lock protects
+				return &Prov{Field: fname, Unguarded: true}
+			}
+		}
 		return nil
 	}
-	return &Prov{MuAddr: fr.heapAddrTerm(mu), Field: field}
+	p := &Prov{MuAddr: fr.heapAddrTerm(mu), Field: field}
+	if tc, fname, shared := fr.sharedField(a); shared && tc.Replaced[fname] {
+		p.Replaced = true
+	}
+	return p
+}
+
+// sharedField: the address is a field of a heap object whose type has a type contract (a shared service structure).
+func (fr *FuncRun) sharedField(a Addr) (*TypeContract, string, bool) {
+	fo, isField := a.(FieldOf)
+	if !isField || !inHeap(fo.Base) {
+		return nil, "", false
+	}
+	if o, ok := fo.Base.(ObjAddr); ok && o.Fresh {
+		// allocated by this function and not yet published
+		return nil, "", false
+	}
+	named := namedOf(fo.Struct)
+	if named == nil {
+		return nil, "", false
+	}
+	tc := fr.eng.contracts.lookupType(named)
+	if tc == nil || len(tc.GuardedBy) == 0 {
+		return nil, "", false
+	}
+	return tc, fieldName(fo.Struct, fo.Idx), true
+}
+
+// unguardedWrite: completeness of the lock discipline. A field of a shared structure that is written outside its
+// constructor must be declared guarded_by (or confined, with a reason that is reported as an assumption).
+func (fr *FuncRun) unguardedWrite(st *State, a Addr, pos token.Pos) {
+	tc, fname, shared := fr.sharedField(a)
+	if !shared {
+		return
+	}
+	if reason, ok := tc.Confined[fname]; ok {
+		fr.assumed["confined field "+tc.Name+"."+fname+": "+reason] = true
+		return
+	}
+	fo := a.(FieldOf)
+	ft := fieldType(fo.Struct, fo.Idx)
+	if n := namedOf(ft); n != nil && n.Obj().Pkg() != nil && (n.Obj().Pkg().Path() == "sync" || n.Obj().Pkg().Path() == "sync/atomic") {
+		return
+	}
+	fr.assertObNoAssume(st, "unguarded-write", fname, "false", pos, "write to field "+fname+" of shared structure "+tc.Name+" that no guarded_by clause covers")
 }
 
 // provCheck: an operation on a map value that was loaded from a guarded field.
 func (fr *FuncRun) provCheck(st *State, v Val, write bool, text string, pos token.Pos) {
 	if v.Prov == nil || !fr.eng.checkGuards {
+		return
+	}
+	if v.Prov.Unguarded || v.Prov.Replaced {
+		if write {
+			why := "that no lock protects"
+			if v.Prov.Replaced {
+				why = "that is declared immutable once published (replaced, never mutated)"
+			}
+			fr.assertObNoAssume(st, "unguarded-write", v.Prov.Field, "false", pos, "write to the map held by shared field "+v.Prov.Field+" "+why)
+		}
 		return
 	}
 	held := sel(fr.heapCur(st, fr.w.HeldHeap()), v.Prov.MuAddr)
